@@ -154,6 +154,10 @@ impl Shadow {
                     Ok(self.alloc(Value::make_time(t)))
                 }
                 "haystack_value_make_date" => {
+                    // a year before 0 cannot be read back through the unsigned year getter: rejected (fix in /repo)
+                    if call.i(0) < 0 {
+                        return Err(NULLP);
+                    }
                     let d = Date::from_ymd(call.i(0) as i32, call.n(1) as u32, call.n(2) as u32).map_err(|_| NULLP)?;
                     Ok(self.alloc(Value::make_date(d)))
                 }
@@ -270,7 +274,8 @@ impl Shadow {
                     _ => Err("nan"),
                 },
                 "haystack_value_get_date_year" => match self.val(call.v(0)) {
-                    Some(Value::Date(d)) => Ok(format!("n{}", chrono::Datelike::year(&**d) as u32)),
+                    // a year before 0 has no unsigned value: an error, not a wrapped number (fix in /repo)
+                    Some(Value::Date(d)) => u32::try_from(chrono::Datelike::year(&**d)).map(|y| format!("n{y}")).map_err(|_| U32_MAX),
                     _ => Err(U32_MAX),
                 },
                 "haystack_value_get_date_month" => match self.val(call.v(0)) {
